@@ -32,6 +32,16 @@ CHECKS["C01"] = dict(
     modelled="Processor.Process, readMessage/readHeader, parsers and builders (hand transcription); callbacks, dial outcome and "
              "transport reads are environment answers; websocket/legacy transports and main() wiring are outside this check.")
 
+CHECKS["C16"] = dict(
+    text="Theorems for every configuration and every run: each response decodes under independent reference decoders (written "
+         "from MS-TSGU) to its own type, a length field equal to the bytes sent, exactly the announced optional fields and "
+         "nothing left over, and the status the step decided; status 0 iff the phase moved; cookie rejection and host denial "
+         "carry 0x800759F8 / 0x800759DA; the redirection word for all 2^7 switch combinations (case analysis inside the proof) "
+         "and the idle field = max 0 t over the int32 range. The extracted decoder/oracle is run over the real responses.",
+    design="7/C16", technique="Coq proof (builders vs reference decoders, finite case analysis in-proof) + extracted-model correspondence",
+    modelled="the five response builders, createPacket, makeRedirectFlags (hand transcription); main.go's config-to-flags mapping "
+             "is covered by C18's real-binary runs.")
+
 NOT_YET = {}
 
 
